@@ -59,6 +59,9 @@ def shards(tier):
     for k1 in KINDS:
         for k2 in KINDS:
             out.append({"part": "two", "kinds": [k1, k2], "n": 4 if big else 3})
+    # strings of 50+ characters (never cast to fixed width) with duplicates as FIRST key: the second key decides among them
+    for k2 in ("i8", "str", "f8"):
+        out.append({"part": "two", "kinds": ["str", k2], "n": 4 if big else 3, "alphas": [[None, V.LONG_A, V.LONG_B], V.alphabet(k2, "key")]})
     for t in TRIPLES:
         out.append({"part": "three", "kinds": list(t), "n": 3 if big else 2})
     # E2: sort after a history of in-place edits, observe-and-discard calls and cell pokes on the same object
@@ -257,7 +260,7 @@ def run_shard(shard, rec):
                 check_case({"cols": cols, "keys": ["k0", "k1"], "dirs": [[1, -1], [-1, 1]]}, rec)
     else:
         kinds, n = shard["kinds"], shard["n"]
-        alphas = [V.alphabet(k, "key") for k in kinds]
+        alphas = shard.get("alphas") or [V.alphabet(k, "key") for k in kinds]
         knames = [f"k{i}" for i in range(len(kinds))]
         dirs = [list(x) for x in itertools.product([1, -1], repeat=len(kinds))]
         for m in range(0, n + 1):
